@@ -681,6 +681,15 @@ def run_property(prop, tier, seed, replay=None):
     print('%s tier=%s seed=%d obligations=%d/%d cases=%d nontrivial=%d corr_mismatch=%d reeval=%d wall=%.1fs'
           % (pid, tier, seed, n_ok, n_obl, stats['evaluations'], stats['nontrivial'], stats['corr_mismatch'], n_re,
              time.time() - t0))
+    nshow = int(os.environ.get('VERIF_SHOW') or 0)
+    seen_ops = {}
+    for c, obs, m, why in corr_breaks:
+        tag = c.op + ':' + (str(c.arg[0]) if isinstance(c.arg, tuple) and c.arg and isinstance(c.arg[0], str) else '')
+        seen_ops[tag] = seen_ops.get(tag, 0) + 1
+        if seen_ops[tag] <= nshow:
+            print('MISMATCH %s\n   arg=%s\n   impl=%s\n   model=%s' % (tag, codec.pretty(c.tree, 1500), codec.pretty(obs, 800), codec.pretty(m, 800) if m[0] != '!runner-error' else m))
+    if nshow:
+        print('mismatch counts:', seen_ops)
     for b in broken:
         print('BROKEN %s %s: %s' % (b['kind'], b['name'], str(b['detail'])[-600:].replace('\n', ' | ')))
     for ln in lines:
